@@ -34,6 +34,8 @@ def cases(seed, tier):
     out += [{"fam": "lattice", "seed": [seed, 8, 9000 + i], "count": 6} for i in range(8 if q else 80)]
     dumps = ["initial_furrow.dmp", "last_furrow.dmp", "12_12/step_20.dmp", "furrow_gauss_velocity/stage3.dmp"] if q else None
     out += [{"fam": "fixture", "file": f} for f in _fixtures(dumps)]
+    if tier != "quick":
+        out.append({"fam": "suite", "seed": [seed, 0, 0]})
     return out
 
 
@@ -178,7 +180,31 @@ def _sig(mon):
     return [l["cells"], l["paths"], l["internal"], l["junctions"], l["lens"]] if l and l["paths"] > 0 else None
 
 
+
+def _suite_case(prop_id):
+    """the repository's own test-suite as an extra workload, run under this property's monitors (shipped fixtures)"""
+    from fv import suite
+    data, tail = suite.run(prop_id)
+    if data is None or data.get("exitstatus") not in (0, 1):
+        return {"status": "inconclusive", "reason": "suite-did-not-run", "trace": tail}
+    counters = {"suite:" + k: v for k, v in data["evals"].items()}
+    counters["suite:runs"] = 1
+    fails = list(data["fails"])
+    if data.get("unraisable"):
+        fails.append({"mech": "unraisable", "clause": "no destructor raises", "detail": {"events": data["unraisable"]}})
+    if data.get("monitor_errors"):
+        return {"status": "inconclusive", "reason": "monitor-error", "trace": data["monitor_errors"][-1], "counters": counters}
+    if fails:
+        return {"status": "violated", "findings": fails, "counters": counters, "sigs": [["suite"]]}
+    if not data["evals"]:
+        return {"status": "inconclusive", "reason": "suite-reached-no-monitor", "counters": counters}
+    return {"status": "held", "sigs": [["suite", sum(data["evals"].values())]], "sig": ["suite"], "counters": counters,
+            "observed": {"monitor_evaluations_in_suite": data["evals"]}}
+
+
 def run_case(case):
+    if case.get("fam") == "suite":
+        return _suite_case(ID)
     from fv import env
     from fv.gen import tissue, realise
     mon = _install()
